@@ -244,6 +244,11 @@ func frame(nalus [][]byte) []byte {
 // genVideoSampleCenc: arbitrary payloads, any size mix (slice headers are not parsed for cenc).
 func genVideoSampleCenc(r *hx.Rng, codec byte, big int) [][]byte {
 	n := r.Pick(1, 1, 2, 3, 4, 6)
+	if r.Intn(12) == 0 {
+		// pictures coded as many slices: the per-sample auxiliary information (IV + 2 + 6 per sub-sample) crosses the
+		// 255 bytes a saiz entry can announce at 40 (16-byte IV), 41 (8-byte IV) and 43 (no IV) protected NAL units
+		n = r.Pick(39, 40, 41, 42, 43, 44, 64)
+	}
 	nalus := make([][]byte, 0, n)
 	bigUsed := false
 	for i := 0; i < n; i++ {
@@ -272,6 +277,9 @@ func genVideoSampleCenc(r *hx.Rng, codec byte, big int) [][]byte {
 // genVideoSampleCbcs: video NALUs are real slices (parseable headers) cut or extended after the header.
 func genVideoSampleCbcs(e *env, r *hx.Rng, codec byte, big int) [][]byte {
 	n := r.Pick(1, 1, 2, 3, 4)
+	if r.Intn(12) == 0 {
+		n = r.Pick(39, 40, 41, 42, 43, 44, 64)
+	}
 	nalus := make([][]byte, 0, n)
 	bigUsed := false
 	for i := 0; i < n; i++ {
